@@ -7,6 +7,7 @@
 package fdt
 
 import (
+	"path/filepath"
 	"fmt"
 	"go/ast"
 	"go/constant"
@@ -203,6 +204,14 @@ func (j *Job) Eval(env *Env, e ast.Expr) constant.Value {
 		return nil
 	case *ast.CallExpr:
 		// type conversion T(x)
+		if id, ok := x.Fun.(*ast.Ident); ok && id.Name == "len" && len(x.Args) == 1 {
+			if _, isB := info.Uses[id].(*types.Builtin); isB {
+				if v := j.Eval(env, x.Args[0]); v != nil && v.Kind() == constant.String {
+					return constant.MakeInt64(int64(len(constant.StringVal(v))))
+				}
+				return nil
+			}
+		}
 		if tv, ok := info.Types[x.Fun]; ok && tv.IsType() && len(x.Args) == 1 {
 			v := j.Eval(env, x.Args[0])
 			if v == nil {
@@ -227,7 +236,81 @@ func (j *Job) Eval(env *Env, e ast.Expr) constant.Value {
 			}
 			return v
 		}
+		return foldPure(core.Callee(info, x), x.Args, func(a ast.Expr) constant.Value { return j.Eval(env, a) })
+	case *ast.SliceExpr:
+		// constant string sliced with constant bounds
+		sv := j.Eval(env, x.X)
+		if sv == nil || sv.Kind() != constant.String || x.Slice3 {
+			return nil
+		}
+		str := constant.StringVal(sv)
+		lo, hi := 0, len(str)
+		lenEnv := env
+		if x.Low != nil {
+			v := j.Eval(lenEnv, x.Low)
+			if v == nil {
+				return nil
+			}
+			n, _ := constant.Int64Val(v)
+			lo = int(n)
+		}
+		if x.High != nil {
+			v := j.Eval(lenEnv, x.High)
+			if v == nil {
+				return nil
+			}
+			n, _ := constant.Int64Val(v)
+			hi = int(n)
+		}
+		if lo < 0 || hi > len(str) || lo > hi {
+			return nil
+		}
+		return constant.MakeString(str[lo:hi])
+	}
+	return nil
+}
+
+// foldPure folds calls of side-effect-free string predicates/functions of the
+// standard library (and the len builtin) whose arguments are all constants.
+func foldPure(cal *types.Func, args []ast.Expr, ev func(ast.Expr) constant.Value) constant.Value {
+	if cal == nil || cal.Pkg() == nil {
 		return nil
+	}
+	vals := make([]string, len(args))
+	for i, a := range args {
+		v := ev(a)
+		if v == nil || v.Kind() != constant.String {
+			return nil
+		}
+		vals[i] = constant.StringVal(v)
+	}
+	switch cal.Pkg().Path() + "." + cal.Name() {
+	case "strings.HasPrefix":
+		return b2c(strings.HasPrefix(vals[0], vals[1]))
+	case "strings.HasSuffix":
+		return b2c(strings.HasSuffix(vals[0], vals[1]))
+	case "strings.Contains":
+		return b2c(strings.Contains(vals[0], vals[1]))
+	case "strings.EqualFold":
+		return b2c(strings.EqualFold(vals[0], vals[1]))
+	case "strings.Trim":
+		return constant.MakeString(strings.Trim(vals[0], vals[1]))
+	case "strings.TrimLeft":
+		return constant.MakeString(strings.TrimLeft(vals[0], vals[1]))
+	case "strings.TrimRight":
+		return constant.MakeString(strings.TrimRight(vals[0], vals[1]))
+	case "strings.TrimPrefix":
+		return constant.MakeString(strings.TrimPrefix(vals[0], vals[1]))
+	case "strings.TrimSuffix":
+		return constant.MakeString(strings.TrimSuffix(vals[0], vals[1]))
+	case "strings.TrimSpace":
+		return constant.MakeString(strings.TrimSpace(vals[0]))
+	case "path/filepath.IsLocal":
+		return b2c(filepath.IsLocal(vals[0]))
+	case "path/filepath.IsAbs":
+		return b2c(filepath.IsAbs(vals[0]))
+	case "path/filepath.Clean":
+		return constant.MakeString(filepath.Clean(vals[0]))
 	}
 	return nil
 }
